@@ -98,13 +98,14 @@ Lemma Frames_oframes d m r : Frames d m r ->
   forall fuel cap, (length d < fuel)%nat -> bytes_ok d = true -> len d <= cap -> 4 <= cap ->
   cap <= 65539 ->
   exists cap', o_frames reg fuel d cap = Some ({| o_data := r; o_cap := cap' |}, m) /\
-               cap <= cap' /\ cap' <= 65539 /\ len r < cap'.
+               cap <= cap' /\ cap' <= 65539 /\ len r < cap' /\
+               (4 <= len r -> o_expected r + 4 <= cap').
 Proof.
   change OPC_HEADER_SIZE with 4.
   induction 1 as [d H|ch cmd hi lo r H|ch cmd hi lo r ms rest H F IH];
     intros fuel cap Hf Hb Hc H4 Hm; (destruct fuel as [|f]; [lia|]); cbn [o_frames];
     change OPC_HEADER_SIZE with 4.
-  - assert (len d <? 4 = true) as -> by lia. exists cap. split; [reflexivity|]. repeat split; lia.
+  - assert (len d <? 4 = true) as -> by lia. exists cap. split; [reflexivity|]. repeat split; intros; lia.
   - rewrite len4 in *. assert (4 + len r <? 4 = false) as -> by lia.
     cbn [o_expected]. set (e := hi * 256 + lo) in *.
     assert (e <= 65535) as He.
@@ -112,7 +113,7 @@ Proof.
     assert (e + 4 <? 4 + len r = false) as -> by lia. rewrite andb_false_r.
     assert (4 + len r <? e + 4 = true) as -> by lia.
     exists (if cap <? e + 4 then e + 4 else cap). split; [reflexivity|].
-    destruct (cap <? e + 4) eqn:E; lia.
+    cbn [o_expected]. fold e. destruct (cap <? e + 4) eqn:E; repeat split; intros; lia.
   - rewrite len4 in *. assert (4 + len r <? 4 = false) as -> by lia.
     cbn [o_expected]. set (e := hi * 256 + lo) in *.
     assert (cap <? e + 4 = false) as -> by lia. cbn [andb].
@@ -121,7 +122,7 @@ Proof.
     assert (bytes_ok r = true) as Hbr.
     { cbn [bytes_ok forallb] in Hb. fold (bytes_ok r) in Hb.
       repeat (apply andb_prop in Hb; destruct Hb as [_ Hb]). exact Hb. }
-    destruct (IH f cap) as (cap' & E & H1 & H2 & H3); try assumption.
+    destruct (IH f cap) as (cap' & E & H1 & H2 & H3 & H5); try assumption.
     + pose proof (length_drop_lt e r). cbn [length] in Hf. lia.
     + apply (bytes_ok_take_drop e r Hbr).
     + rewrite drop_len. lia.
@@ -133,7 +134,8 @@ Qed.
    capacity never exceeds 65535 + 4 *)
 Definition o_inv (s : ostate) : Prop :=
   Frames (o_data s) [] (o_data s) /\ bytes_ok (o_data s) = true /\
-  len (o_data s) < o_cap s /\ 4 <= o_cap s /\ o_cap s <= 65539.
+  len (o_data s) < o_cap s /\ 516 <= o_cap s /\ o_cap s <= 65539 /\
+  (4 <= len (o_data s) -> o_expected (o_data s) + 4 <= o_cap s).
 
 Lemma o_inv_init : o_inv o_init.
 Proof.
@@ -152,7 +154,7 @@ Lemma o_recv_frames s av m r : o_inv s -> av <> [] -> bytes_ok av = true ->
   exists s1, o_recv reg s av = Some (s1, drop room av, m) /\ o_data s1 = r /\ o_inv s1 /\
              take room av <> [].
 Proof.
-  intros (Hf & Hb & Hr & H4 & Hm) Hne Hbav room F.
+  intros (Hf & Hb & Hr & H4 & Hm & Hx) Hne Hbav room F.
   assert (usub32 (o_cap s) (len (o_data s)) = room) as Hus by (apply usub32_small; lia).
   pose proof (len_take room av) as Lt.
   assert (0 < len av) as Hav by (destruct av; [congruence|rewrite len_cons; lia]).
@@ -162,8 +164,8 @@ Proof.
   assert (bytes_ok d = true) as Hbd.
   { unfold d. rewrite bytes_ok_app, Hb. apply (bytes_ok_take_drop room av Hbav). }
   assert (len d <= o_cap s) as Hld by (unfold d; rewrite len_app; unfold room in *; lia).
-  destruct (Frames_oframes d m r F (S (length d)) (o_cap s) ltac:(lia) Hbd Hld H4 Hm)
-    as (cap' & E & H1 & H2 & H3).
+  destruct (Frames_oframes d m r F (S (length d)) (o_cap s) ltac:(lia) Hbd Hld ltac:(lia) Hm)
+    as (cap' & E & H1 & H2 & H3 & H5).
   exists {| o_data := r; o_cap := cap' |}. repeat split; cbn [o_data o_cap]; try lia; auto.
   - unfold o_recv. rewrite Hus, take_min, drop_min. fold d.
     assert (o_cap s <? len (o_data s) + len (take room av) = false) as ->
@@ -241,6 +243,19 @@ Proof.
   intros Hb H.
   destruct (Frames_total _ (concat chunks) (le_n _)) as (M & R & F).
   destruct (o_feed chunks o_init M R o_inv_init Hb F) as (s1 & E & _ & Hi).
-  rewrite E in H. inversion H; subst. destruct Hi as (_ & _ & A & _ & B). auto.
+  rewrite E in H. inversion H; subst. destruct Hi as (_ & _ & A & _ & B & _). auto.
+Qed.
+(* the capacity window: never below the initial 516 bytes nor above the largest frame, always ahead
+   of the bytes held, and — once the header of the frame being received is in the buffer — large
+   enough for that whole frame (CheckSize has grown the buffer to expected_size + 4) *)
+Lemma opc_capacity chunks s out : bytes_ok (concat chunks) = true ->
+  feed (o_recv reg) o_init chunks = Done s out ->
+  516 <= o_cap s /\ o_cap s <= 65539 /\ len (o_data s) < o_cap s /\
+  (4 <= len (o_data s) -> o_expected (o_data s) + 4 <= o_cap s).
+Proof.
+  intros Hb H.
+  destruct (Frames_total _ (concat chunks) (le_n _)) as (M & R & F).
+  destruct (o_feed chunks o_init M R o_inv_init Hb F) as (s1 & E & _ & Hi).
+  rewrite E in H. inversion H; subst. destruct Hi as (_ & _ & A & B & C & D). auto.
 Qed.
 End OpcReg.
